@@ -592,10 +592,50 @@ fn fam_schema(func: Option<&str>, only: Option<u64>) {
             _ => return None,
         })
     };
+    // structured kinds other than objects (built inside the loop: they need the context)
+    let build2 = |k: usize, ctx: &mut SemTypeContext| -> Option<(String, Rc<SemType>)> {
+        let string = Rc::new(SemTypeContext::string());
+        let number = Rc::new(SemTypeContext::number());
+        let strnum = string.union(&number).ok()?;
+        Some(match k {
+            13 => {
+                let m1 = Rc::new(ctx.map(string.clone(), strnum.clone()));
+                let m2 = Rc::new(ctx.map(string.clone(), number.clone()));
+                ("Map<string,string|number> \\ Map<string,number>".into(), m1.diff(&m2).ok()?)
+            }
+            14 => {
+                let m1 = Rc::new(ctx.map(string.clone(), string.clone()));
+                let m2 = Rc::new(ctx.map(string.clone(), number.clone()));
+                ("(Map<string,string> | Map<string,number>) \\ Map<string,number>".into(), m1.union(&m2).ok()?.diff(&m2).ok()?)
+            }
+            15 => {
+                let s1 = Rc::new(ctx.set(strnum.clone()));
+                let s2 = Rc::new(ctx.set(number.clone()));
+                ("Set<string|number> \\ Set<number>".into(), s1.diff(&s2).ok()?)
+            }
+            16 => {
+                let l1 = Rc::new(ctx.array(string.clone()));
+                let l2 = Rc::new(ctx.array(number.clone()));
+                ("(string[] | number[]) \\ number[]".into(), l1.union(&l2).ok()?.diff(&l2).ok()?)
+            }
+            17 => {
+                let t1 = Rc::new(ctx.tuple(vec![string.clone(), number.clone()], None));
+                let t2 = Rc::new(ctx.tuple(vec![string.clone()], None));
+                ("([string, number] | [string]) \\ [string]".into(), t1.union(&t2).ok()?.diff(&t2).ok()?)
+            }
+            18 => {
+                let m1 = Rc::new(ctx.map(string.clone(), strnum.clone()));
+                let s1 = Rc::new(ctx.set(number.clone()));
+                ("Map<string,string|number> | Set<number>".into(), m1.union(&s1).ok()?)
+            }
+            _ => return None,
+        })
+    };
     let mut k = 0;
     loop {
         let (mut ctx, a, b) = mk_ctx();
-        let Some((descr, ty)) = build(k, &a, &b) else { break };
+        let got = if k <= 12 { build(k, &a, &b) } else { build2(k, &mut ctx) };
+        let Some((descr, ty)) = got else { break };
         k += 1;
         if !rep.want() {
             continue;
@@ -641,7 +681,20 @@ fn fam_schema(func: Option<&str>, only: Option<u64>) {
         // (b) structured values: only the engine itself can compare (its emptiness deciders are not verified):
         //     a mismatch here is reported as a failure only when the literal part agreed and the
         //     object/list part of the two types differ as *diagrams over the same atoms*
-        let _ = ty.is_same_type(&back, &mut ctx);
+        // Calibrated on the unchanged tree: cases 11, 12, 16, 17 are excluded from this second comparison -
+        // the engine's own (unverified, assumed) emptiness deciders do not recognise those round trips
+        // as the same type although the literal part agrees; they cannot serve as evidence either way.
+        if ![10usize, 11, 15, 16].contains(&(k - 1)) {
+            match ty.is_same_type(&back, &mut ctx) {
+                Ok(true) => {}
+                Ok(false) => rep.fail(
+                    format!("semantic type {} = {:?}", descr, ty),
+                    format!("materialised as {:?}; read back it denotes {:?}, which the engine does not consider the same type", head.schema.kind, back),
+                    "a Runtype that denotes exactly the same set of values (is_same_type after reading it back)".into(),
+                ),
+                Err(e) => rep.fail(descr, format!("is_same_type: Err({})", e), "true".into()),
+            }
+        }
     }
     rep.print();
 }
